@@ -44,10 +44,24 @@ func newBits(b *setz.Bits) *set {
 	}
 	s.Iter = func() func() (uint, bool) {
 		it := b.Iter()
+		var shadow, empty = b.Iter(), b.Iter() // more iterators over the unmodified set, alive at the same time
+		var seen []uint
+		k := 0
 		return func() (uint, bool) {
 			if it.Next() {
-				return it.Value(), true
+				v := it.Value()
+				seen = append(seen, v)
+				if k++; k >= 2 {
+					// the shadow iterator runs one element behind
+					if !shadow.Next() || shadow.Value() != seen[k-2] {
+						if nestedErr == nil {
+							nestedErr = fmt.Errorf("two iterators alive at once: the second one, one element behind, yields %d instead of %d (first iterator so far: %v)", shadow.Value(), seen[k-2], seen)
+						}
+					}
+				}
+				return v, true
 			}
+			_ = empty
 			return 0, false
 		}
 	}
@@ -65,10 +79,24 @@ func newBitmap(b *setz.Bitmap) *set {
 	s.Contains, s.Len, s.Cap, s.Grow, s.Range = b.Contains, b.Len, b.Cap, b.Grow, b.Range
 	s.Iter = func() func() (uint, bool) {
 		it := b.Iter()
+		var shadow, empty = b.Iter(), b.Iter() // more iterators over the unmodified set, alive at the same time
+		var seen []uint
+		k := 0
 		return func() (uint, bool) {
 			if it.Next() {
-				return it.Value(), true
+				v := it.Value()
+				seen = append(seen, v)
+				if k++; k >= 2 {
+					// the shadow iterator runs one element behind
+					if !shadow.Next() || shadow.Value() != seen[k-2] {
+						if nestedErr == nil {
+							nestedErr = fmt.Errorf("two iterators alive at once: the second one, one element behind, yields %d instead of %d (first iterator so far: %v)", shadow.Value(), seen[k-2], seen)
+						}
+					}
+				}
+				return v, true
 			}
+			_ = empty
 			return 0, false
 		}
 	}
@@ -86,10 +114,24 @@ func newDsz(b *dsz.Bits) *set {
 	s.Contains, s.Len, s.Cap, s.Grow = b.Contains, b.Len, b.Cap, b.Grow
 	s.Iter = func() func() (uint, bool) {
 		it := b.Iter()
+		var shadow, empty = b.Iter(), b.Iter() // more iterators over the unmodified set, alive at the same time
+		var seen []uint
+		k := 0
 		return func() (uint, bool) {
 			if it.Next() {
-				return it.Value(), true
+				v := it.Value()
+				seen = append(seen, v)
+				if k++; k >= 2 {
+					// the shadow iterator runs one element behind
+					if !shadow.Next() || shadow.Value() != seen[k-2] {
+						if nestedErr == nil {
+							nestedErr = fmt.Errorf("two iterators alive at once: the second one, one element behind, yields %d instead of %d (first iterator so far: %v)", shadow.Value(), seen[k-2], seen)
+						}
+					}
+				}
+				return v, true
 			}
+			_ = empty
 			return 0, false
 		}
 	}
@@ -208,7 +250,19 @@ func checkAll(p pair, label string) error {
 	return nil
 }
 
+// nestedErr is set by the iterator wrappers when a second iterator over the unmodified set disagrees with the first.
+var nestedErr error
+
 func runBits(c bitsCase, r *pb.Rec) error {
+	nestedErr = nil
+	err := runBits0(c, r)
+	if nestedErr != nil {
+		return nestedErr
+	}
+	return err
+}
+
+func runBits0(c bitsCase, r *pb.Rec) error {
 	var recv, other pair
 	switch c.Kind {
 	case 0:
